@@ -343,6 +343,16 @@ for _k, _v in {
     "C16": " Also: parse_expr returns only type-checked trees (typed-tree), the invariant the counted typing unwraps rest on.",
 }.items():
     ADDED[_k] = (ADDED.get(_k, "") + _v).strip()
+# round 22 (session 7)
+for _k, _v in {
+    "C03": " Also: the fallback of `or` is judged by eq_complex, not around it by == / != (or-fallback).",
+    "C04": " Also: the serializers write text by character (codec-text).",
+    "C07": " Also: every net dependency of a function is listed as a captured name (captures-complete).",
+    "C08": " Also: only the two assignment instructions write through a field / element view (view-writers).",
+    "C18": " Also: the transpiled file is entered under the spelling imports use, on every branch (entry-spelling, shared with C11).",
+    "C20": " Also: the command-line parser splits no argument at a delimiter (dir-as-given|parser-split).",
+}.items():
+    ADDED[_k] = (ADDED.get(_k, "") + _v).strip()
 # round 21 and the observations triaged after it (session 7)
 for _k, _v in {
     "C06": " Also: the interpreter narrows no operand before it operates (runtime-narrowing, shared with C05).",
